@@ -157,6 +157,7 @@ class FaultRunner {
     sched_call_begin();
     int rc = ldb_open(path.c_str(), &opts.opt, &db);
     sched_call_end();
+    if (rc != LDB_OK && getenv("VF_KEEP")) { std::string cmd = "rm -rf /tmp/vf-keep-fault; cp -r " + path + " /tmp/vf-keep-fault"; if (system(cmd.c_str())) {} }
     if (rc != LDB_OK) VF_FAIL("C12", "%s: ldb_open fails with rc=%d after the fault has cleared", what.c_str(), rc);
     try {
       Recovered r = read_back(db, what);
